@@ -95,7 +95,13 @@ def exec_box(case):
         cls.append("wider-than-2pi")
     if abs(box[2]) >= math.pi / 2 - 1e-12 or abs(box[3]) >= math.pi / 2 - 1e-12:
         cls.append("touches-pole")
-    for pr in case["probes"]:
+    # the same filter object may be asked about tiles of both coordinate systems, one after the other
+    first = planetary
+    systems = [first, not first] if case.get("both") else [first]
+    if len(systems) == 2:
+        cls.append("one-filter-both-systems")
+    for planetary, pr in [(sy, pr) for sy in systems for pr in case["probes"]]:
+        what = f"box filter lon [{box[0]!r}, {box[1]!r}] lat [{box[2]!r}, {box[3]!r}] ({'planetary' if planetary else 'astronomical'}{', after the other system' if planetary != first else ''})"
         if pr["kind"] == "pos":
             pos = tuple(pr["pos"])
         else:
@@ -118,7 +124,7 @@ def exec_box(case):
             cls.append("straddles-box-edge")
         if inside.any():
             cls.append("tile-has-data")
-    return Outcome(classes=sorted(set(cls)), nontrivial=nt, count=len(case["probes"]))
+    return Outcome(classes=sorted(set(cls)), nontrivial=nt, count=len(case["probes"]) * len(systems))
 
 
 @st.composite
@@ -136,17 +142,34 @@ def strat_box(draw, tier):
             probes.append({"kind": "pos", "pos": draw(gens.positions(4, 1))})
         else:
             probes.append({"kind": "at", "uv": [draw(st.sampled_from([0.0, 1.0, 0.5, 0.001, 0.999])), draw(st.sampled_from([0.0, 1.0, 0.5, 0.001, 0.999]))], "depth": draw(st.integers(1, 12))})
-    return {"box": [lon0, lon0 + w, la[0], la[1]], "planetary": draw(st.booleans()), "probes": probes}
+    return {"box": [lon0, lon0 + w, la[0], la[1]], "planetary": draw(st.booleans()), "probes": probes, "both": draw(st.integers(0, 2)) == 0}
 
 
 # ------------------------------------------------------------------ image footprints
+
+
+def edge_point(W, H, side, t):
+    """pixel coordinates (0-based) of the point at fraction t of pixel-edge line `side` (walking round the image from the
+    first corner along the first row)"""
+    t = min(1.0, max(0.0, t))
+    return [(-0.5 + t * W, -0.5), (W - 0.5, -0.5 + t * H), (W - 0.5 - t * W, H - 0.5), (-0.5, H - 0.5 - t * H)][side % 4]
 
 
 def image_setup(case):
     from toasty.samplers import WcsSampler
 
     W, H = case["size"]
-    wcs = wcsgen.wcs_of(case["wcs"], W, H)
+    spec = dict(case["wcs"])
+    if case.get("seam_at") is not None:
+        # rotate the image in right ascension (exact symmetry) so that RA = 0 falls on a chosen point of its boundary
+        side, t = case["seam_at"]
+        x, y = edge_point(W, H, side, t)
+        with warnings.catch_warnings():
+            warnings.simplefilter("ignore")
+            ra0 = wcsgen.wcs_of(spec, W, H).wcs_pix2world([[x, y]], 0)[0][0]
+        if np.isfinite(ra0):
+            spec["ra"] = float((spec["ra"] - ra0) % 360.0)
+    wcs = wcsgen.wcs_of(spec, W, H)
     data = (np.arange(W * H, dtype=np.float32).reshape(H, W) % 251) + 1
     with warnings.catch_warnings():
         warnings.simplefilter("ignore")
@@ -170,7 +193,7 @@ def boundary_points(wcs, W, H, per_pixel=40):
 
 def exec_image(case):
     W, H = case["size"]
-    planetary = False
+    planetary = bool(case.get("planetary"))
     ws, wcs, data = image_setup(case)
     px, py, blon, blat = boundary_points(wcs, W, H)
     ok = np.isfinite(blon) & np.isfinite(blat)
@@ -183,9 +206,13 @@ def exec_image(case):
             flt = ws.filter()
     ulon = np.unwrap(blon)
     scale_deg = case["wcs"]["scale"]
-    what0 = f"WcsSampler filter of a {W}x{H} image, wcs {case['wcs']}"
+    what0 = f"WcsSampler filter of a {W}x{H} image, wcs {case['wcs']}" + (f", RA=0 placed at edge point {case['seam_at']}" if case.get("seam_at") is not None else "") + (" (planetary tiles)" if planetary else "")
     nt = False
     cls = ["image", case["wcs"]["proj"]]
+    if case.get("seam_at") is not None:
+        cls.append("ra0-on-chosen-edge-point")
+    if planetary:
+        cls.append("planetary-tiles")
     if min(W, H) < 32:
         cls.append("narrow-image")
     if (ulon.max() - ulon.min()) > 2 * math.pi - 1e-6:
@@ -220,6 +247,14 @@ def exec_image(case):
         elif kind == "interior":
             qx = -0.5 + pr["frac"] * W
             qy = -0.5 + pr["frac2"] * H
+        elif kind == "seam":
+            # next to the boundary point where RA = 0 was placed (or next to the first corner), just inside the image
+            side, t = case.get("seam_at") or [0, 0.0]
+            ex, ey = edge_point(W, H, side, t + (pr["frac"] - 0.5) * 0.12)
+            vx, vy = cx - ex, cy - ey
+            nrm = math.hypot(vx, vy) or 1.0
+            qx = ex + pr["shift"] * vx / nrm
+            qy = ey + pr["shift"] * vy / nrm
         else:
             vx, vy = cx - px[i], cy - py[i]
             nrm = math.hypot(vx, vy) or 1.0
@@ -300,10 +335,25 @@ def strat_image(draw, tier):
                     c = {"first": 0.5 + f, "last": N - 0.5 + f, "any": 0.5 + f + draw(st.integers(0, N - 1))}[cell]
                     case["wcs"][key] = (c - 1) / (N - 1)
             deep = True
+    seam = draw(st.integers(0, 1 if polar else 3)) == 0
+    if seam:
+        # RA = 0 on a chosen boundary point, mostly within a fraction of a side from a corner (where an unwrapping walk
+        # starts / ends; for an image that contains a pole the walk must close the full turn there)
+        if draw(st.booleans()):
+            side, t = draw(st.sampled_from([[3, 1.0 - draw(st.floats(0.0, 0.04))], [0, draw(st.floats(0.0, 0.04))]]))
+        else:
+            side = draw(st.sampled_from([0, 3, 1, 2]))
+            t = draw(st.one_of(st.floats(0, 1), st.floats(0, 0.05), st.floats(0.95, 1)))
+        case["seam_at"] = [side, t]
+    if draw(st.integers(0, 5)) == 0:
+        case["planetary"] = True
     probes = []
     for _ in range(draw(st.integers(2, 6))):
-        kind = draw(st.sampled_from(["pole", "pole", "interior", "ring"] if polar else ["latmax", "latmin", "lonmax", "lonmin", "latmax", "latmin", "lonmax", "lonmin", "ring", "interior", "pole"]))
-        pr = {"kind": kind, "shift": draw(st.floats(0.01, 0.45)), "ratio": 2 ** draw(st.floats(-14 if deep else -10, 2)), "frac": draw(st.floats(0, 1)), "frac2": draw(st.floats(0, 1))}
+        kinds = ["pole", "pole", "interior", "ring"] if polar else ["latmax", "latmin", "lonmax", "lonmin", "latmax", "latmin", "lonmax", "lonmin", "ring", "interior", "pole"]
+        if seam:
+            kinds = kinds + ["seam"] * (len(kinds) if polar else len(kinds) // 2)
+        kind = draw(st.sampled_from(kinds))
+        pr = {"kind": kind, "shift": draw(st.floats(0.01, 0.45)), "ratio": 2 ** (draw(st.floats(-14, -8)) if (polar and kind == "seam") else draw(st.floats(-14 if deep else -10, 2))), "frac": draw(st.floats(0, 1)), "frac2": draw(st.floats(0, 1))}
         probes.append(pr)
     case["probes"] = probes
     return case
